@@ -35,7 +35,7 @@ RULE = ('each case = one generated dataset inside OpenSfM\'s perspective model: 
         'spaces, unicode), every image posed (random / identity / half-turn / tiny-angle / negative-w unit quaternions), points3d '
         'absent or 0..1500 coloured points (sizes around 10, 100, 1000 over-represented), with or without float32|float64 '
         'keypoints of 2/4/6 columns + uint8|float32 descriptors on a subset of the images, with or without matches holding '
-        'integer-valued index pairs, keypoints / descriptors types given explicitly or inferred, image files skipped or copied; '
+        'integer-valued index pairs, keypoints / descriptors types given explicitly or inferred, feature kinds of the SOURCE stored as loose files or (25% each) packed in the tar layout, image files skipped or copied; '
         'plus a few out-of-statement variants (unsupported camera type, unposed image, off-centre principal point) that '
         'exercise the model\'s error paths; distinct non-trivial = distinct cases with more than 10 points or with matches')
 ASSUMPTIONS = [
@@ -184,7 +184,9 @@ def gen_case(rng, tier, allow_big=True):
                 matches.append([a, b, rows])
     explicit = True if (features and features['extra_type']) else rng.random() < 0.5
     return {'variant': variant, 'cameras': cams, 'records': records, 'poses': poses, 'points': points, 'features': features,
-            'matches': matches, 'explicit': explicit, 'transfer': rng.choice(['skip', 'skip', 'copy'])}
+            'matches': matches, 'explicit': explicit, 'transfer': rng.choice(['skip', 'skip', 'copy']),
+            # the source dataset keeps its feature / match files in the tar layout (keypoints.tar ...) instead of loose files
+            'packed': sorted(k for k in ('keypoints', 'descriptors', 'matches') if rng.random() < 0.25)}
 
 
 def cases(rng, tier):
@@ -330,6 +332,28 @@ def write_source(case, root):
             os.makedirs(os.path.dirname(p), exist_ok=True)
             with open(p, 'wb') as fh:
                 fh.write(match_array(rows).tobytes())
+        pack_feature_dirs(root, case.get('packed', []))
+
+
+def pack_feature_dirs(root, kinds):
+    """ moves the loose data files of every type folder of the given kinds into the type's tar archive (plain tarfile) """
+    import tarfile
+    for kind, ext in (('keypoints', '.kpt'), ('descriptors', '.desc'), ('matches', '.matches')):
+        kdir = os.path.join(root, 'reconstruction', kind)
+        if kind not in kinds or not os.path.isdir(kdir):
+            continue
+        for ty in sorted(os.listdir(kdir)):
+            tdir = os.path.join(kdir, ty)
+            if not os.path.isdir(tdir):
+                continue
+            files = [os.path.relpath(os.path.join(dp, fn), tdir) for dp, _, fns in os.walk(tdir) for fn in fns if fn.endswith(ext)]
+            if not files:
+                continue
+            with tarfile.open(os.path.join(tdir, kind + '.tar'), 'w', format=tarfile.GNU_FORMAT) as tf:
+                for rel in sorted(files):
+                    tf.add(os.path.join(tdir, rel), arcname=rel.replace(os.sep, '/'))
+            for rel in files:
+                os.remove(os.path.join(tdir, rel))
 
 
 def walk_files(root):
